@@ -368,7 +368,7 @@ fn sanitize(s: &str) -> String {
 fn check(prop: &str, tier: &str) -> i32 {
     let t0 = Instant::now();
     let base: u64 = std::env::var("VERIF_SEED").ok().and_then(|s| s.parse().ok()).unwrap_or(1);
-    let (inst, per) = if tier == "thorough" { (80_000u64, 150u64) } else { (8_000u64, 80u64) };
+    let (inst, per) = if tier == "thorough" { (100_000u64, 150u64) } else { (4_000u64, 80u64) };
     let inst: u64 = std::env::var("VERIF_TSIM_INSTANCES").ok().and_then(|s| s.parse().ok()).unwrap_or(inst);
     let nw: u64 = std::env::var("VERIF_WORKERS").ok().and_then(|s| s.parse().ok()).unwrap_or(16);
     println!("tsim check property={} tier={} VERIF_SEED={} scenario instances={} executions per instance={} workers={}", prop, tier, base, inst, per, nw);
